@@ -637,3 +637,26 @@ def disk_consistent(s):
     n = s._bloom_length
     return (inv_bloom_disk(s) and geo_bloom(s) and s._num_bits < 2**53
             and le_bytes(s._bloom, n, 8) == s._est_elements and f32_at(s._bloom, n + 16) == s._fpr)
+
+
+# ---- C17 ghost invariants -------------------------------------------------------------------------------------------------
+def g_threshold(s, last, seen):
+    """StreamThreshold: the table holds exactly the seen keys whose most recent returned estimate meets the
+    threshold, with that estimate (last: key -> most recent estimate, seen: key -> 1)"""
+    t = s._StreamThreshold__meets_threshold
+    return all(((k in t) == ((k in seen) and last[k] >= s._StreamThreshold__threshold)) and implies(k in t, t[k] == last[k])
+               for k in allkeys(t, last, seen))
+
+
+def g_hitters(s, last, seen, nseen):
+    """HeavyHitters: tracks min(number_heavy_hitters, distinct keys seen) keys, each with its most recent estimate;
+    no untracked seen key's most recent estimate exceeds a tracked one; the cached minimum is a lower bound"""
+    t = s._HeavyHitters__top_x
+    n = s._HeavyHitters__num_hitters
+    return (s._HeavyHitters__top_x_size == len(t) and len(t) == (n if nseen >= n else nseen) and nseen == len(seen)
+            and s._HeavyHitters__smallest >= 0 and implies(len(t) < n, s._HeavyHitters__smallest == 0)
+            and all(s._bins[x] >= 0 for x in range(0, cw(s) * cd(s)))
+            and all(implies(k in seen, k in last) for k in allkeys(seen, last))
+            and all(implies(k in t, (k in seen) and t[k] == last[k] and s._HeavyHitters__smallest <= t[k]) for k in allkeys(t, seen))
+            and all(implies((k in seen) and not (k in t), len(t) >= n and
+                            all(implies(k2 in t, last[k] <= t[k2]) for k2 in allkeys(t))) for k in allkeys(seen, t)))
